@@ -1331,6 +1331,15 @@ def main(repo: str, outdir: str, dry: bool = False) -> int:
             raise TranslateError(str(e))
         return HEADER + "namespace Optyx.Generated\n\n" + body + "\nend Optyx.Generated\n"
 
+    def f_closurepaths():
+        import py2lean_dispatch
+        try:
+            body = py2lean_dispatch.gen_closure_paths(src("core/compiler.py"), src("core/autodiff.py"))
+        except py2lean_dispatch.TranslateError as e:
+            raise TranslateError(str(e))
+        return (HEADER + "set_option linter.unusedVariables false\n\nnamespace Optyx.Generated\n\n" + body
+                + "\nend Optyx.Generated\n")
+
     def f_lpfast():
         import py2lean_lpfast
         try:
@@ -1391,7 +1400,7 @@ def main(repo: str, outdir: str, dry: bool = False) -> int:
                         ("ApiGlue", f_apiglue), ("LPGlue", f_lpglue), ("SortGlue", f_sort),
                         ("DegreeStep", f_degstep), ("GradStep", f_gradstep), ("LPStep", f_lpstep), ("JacRowVec", f_jacrowvec),
                         ("ScipyPost", f_scipypost), ("ProblemEdit", f_problemedit),
-                        ("ConstraintFns", f_constraintfns), ("SvsStep", f_svs), ("BuildStep", f_buildstep), ("Operators", f_operators), ("GradIterCtl", f_graditer), ("LPFast", f_lpfast), ("HookShape", f_hookshape)):
+                        ("ConstraintFns", f_constraintfns), ("SvsStep", f_svs), ("BuildStep", f_buildstep), ("Operators", f_operators), ("GradIterCtl", f_graditer), ("LPFast", f_lpfast), ("HookShape", f_hookshape), ("ClosurePaths", f_closurepaths)):
         path = os.path.join(outdir, fname + ".lean")
         try:
             text = make()
